@@ -184,7 +184,33 @@ def gen_config():
     return "\n".join(out) + "\n"
 
 
+def gen_outline():
+    """character classes and constants Tag.make_name consults"""
+    import sys
+    from behave.model import Tag, ScenarioOutlineBuilder
+    ranges, start, prev = [], None, None
+    for c in range(sys.maxunicode + 1):
+        if chr(c).isalnum():
+            if start is None:
+                start = c
+            prev = c
+        elif start is not None:
+            ranges.append((start, prev))
+            start = None
+    if start is not None:
+        ranges.append((start, prev))
+    if tuple(Tag.quoting_chars) != ("'", '"', "<", ">"):
+        raise ValueError("gen_outline: Tag.quoting_chars changed: %r" % (Tag.quoting_chars,))
+    out = ["(* GENERATED from %s/behave/model.py (Tag.allowed_chars, default annotation schema) and str.isalnum by harness/gen_more.py *)" % REPO,
+           "From BV Require Import Base.", "",
+           "Definition alnum_ranges : list (N * N) := %s." % clist(["(%d%%N, %d%%N)" % r for r in ranges], "N * N"),
+           "Definition tag_allowed_chars : list N := %s." % clist(["%d%%N" % ord(c) for c in Tag.allowed_chars], "N"),
+           "Definition default_annotation_schema : ustr := %s." % cstr_(ScenarioOutlineBuilder.annotation_schema)]
+    return "\n".join(out) + "\n"
+
+
 GENERATORS = {
+    "OutlineTables.v": gen_outline,
     "ConfigTables.v": gen_config,
     "ActiveTagTables.v": gen_activetag,
     "SummaryTables.v": gen_summary,
